@@ -67,6 +67,7 @@ def parseAdapter : String → Adapter
   | "cbwrap" => Adapter.cbAwait
   | "callawt" => Adapter.callAwt
   | "mkprom" => Adapter.mkProm
+  | "mkcb" => Adapter.mkCb
   | "discard" => Adapter.discard
   | "conv" => Adapter.conv
   | _ => Adapter.callFn
@@ -118,9 +119,10 @@ def runRound (hdr : List String) (body : List (List String)) (nx : Slot) : List 
   let pre : Option RK := (body.filterMap (fun w => match w with
     | "pre" :: rest => parseRK rest
     | "imm" :: rest => parseRK rest
-    | ["fthrow", c] => c.toNat?.map RK.exc     -- the factory throws: `result_of` resolves the re-created future with the exception
+    | ["fthrow", c] => c.toNat?.map RK.exc     -- the start of the operation throws: its outcome is that exception (`startThrew`)
     | _ => none)).head?
-  let isImm := body.any (fun w => w.head? == some "imm" || w.head? == some "fthrow")
+  let startThrew := body.any (fun w => w.head? == some "fthrow")
+  let isImm := body.any (fun w => w.head? == some "imm") || startThrew
   let hasD := threads.any (fun w => w.head? == some "d")
   let sched := (body.filter (fun w => w.head? == some "sched")).flatMap (fun w => (w.drop 1).filterMap String.toNat?)
   let rk : Nat → Option RK := fun i => match tarr[i]? with
@@ -130,7 +132,7 @@ def runRound (hdr : List String) (body : List (List String)) (nx : Slot) : List 
   let inCoro := body.any (fun w => w == ["ctx", "coro"]) && adapterName == "cbawait"
   let cvb := if behav == "throw" then ConvB.throw 77 else if behav == "leave" then ConvB.leave else ConvB.ret
   -- one extra (unscheduled) destructor agent at index n: the controller destroys the promise after the run
-  let cfg : Cfg := { adapter := adapter, n := n + 1, rk := rk, pre := pre, selfRes := selfRes, cvb := cvb, srcVoid := srcVoid, cbThrows := cbThrows, inCoro := inCoro }
+  let cfg : Cfg := { adapter := adapter, n := n + 1, rk := rk, pre := pre, selfRes := selfRes, cvb := cvb, srcVoid := srcVoid, cbThrows := cbThrows, startThrew := startThrew, inCoro := inCoro }
   let s0 := initWith cfg nx
   let s0 := if hasD then setPc s0 n Pc.done else s0
   -- `imm`: the factory returns an already resolved future that the harness cannot name: its slot is not traced
